@@ -29,8 +29,14 @@ func toSeq(idx []int, id string) *linear.Seq {
 
 // Run performs one filter run and returns its record.
 func Run(T, Q []int, k, n, e, off int, self, model bool) vt.Ev {
+	return RunWarm(T, Q, k, n, e, off, self, model, nil)
+}
+
+// RunWarm is Run on a Filter that has already served another query (warm, discarded): pals.PALS uses one
+// Filter for its forward and its complement pass, so every call must start from a clean slate.
+func RunWarm(T, Q []int, k, n, e, off int, self, model bool, warm []int) vt.Ev {
 	ev := vt.Ev{"T": T, "Q": Q, "k": k, "n": n, "e": e, "off": off, "self": self, "model": model,
-		"hits": [][]int{}, "cands": [][]int{}, "err": "", "panic": ""}
+		"hits": [][]int{}, "cands": [][]int{}, "err": "", "panic": "", "warm": len(warm)}
 	func() {
 		defer func() {
 			if p := recover(); p != nil {
@@ -59,6 +65,21 @@ func Run(T, Q []int, k, n, e, off int, self, model bool) vt.Ev {
 		}
 		defer m.CleanUp()
 		f := filter.New(ki, &filter.Params{WordSize: k, MinMatch: n, MaxError: e, TubeOffset: off})
+		if warm != nil {
+			if err := f.Filter(toSeq(warm, "w"), false, false, m); err != nil {
+				ev["err"] = "warm-up: " + err.Error()
+				return
+			}
+			for {
+				var h filter.Hit
+				if err := m.Pull(&h); err != nil {
+					break
+				}
+			}
+			if err := m.Clear(); err != nil {
+				vt.Fatal("morass.Clear: %v", err)
+			}
+		}
 		if err := f.Filter(query, self, false, m); err != nil {
 			ev["err"] = err.Error()
 			return
@@ -143,10 +164,18 @@ func Small(w *vt.W, rng *rand.Rand, cases int) {
 		lt, lq := n+rng.Intn(12), n+rng.Intn(12)
 		T := randSeq(rng, lt, 2)
 		Q := randSeq(rng, lq, 2)
+		var warm []int
+		if rng.Intn(3) == 0 {
+			// the Filter has served a long query before; the judged query is short (at most a tube wide)
+			warm = randSeq(rng, 6*(off+e)+rng.Intn(20)+n, 2)
+			lq = n + rng.Intn(3)
+			Q = randSeq(rng, lq, 2)
+		}
 		if rng.Intn(2) == 0 && lq >= n && lt >= n { // plant a copy with up to e substitutions
 			plant(rng, T, Q, n, e)
 		}
-		w.Emit(Run(T, Q, k, n, e, off, rng.Intn(4) == 0, true))
+		self := rng.Intn(4) == 0 && warm == nil
+		w.Emit(RunWarm(T, Q, k, n, e, off, self, true, warm))
 	}
 }
 
